@@ -428,7 +428,10 @@ end Union
 /-! ### DisjunctionMaxMatcher (subclass of UnionMatcher) -/
 namespace DisMax
 
-/-- `DisjunctionMaxMatcher.score` -/
+/-- `DisjunctionMaxMatcher.score`.  The constructor option `tiebreak` (binary.py `__init__`/`copy`) is stored on
+the object and read by no method: the score is the plain maximum for every tiebreak, which is what the bounds
+`max_quality`/`block_quality` below (also plain maxima) rely on.  The harness builds the real class with
+tiebreak 0 and > 0 against this one model. -/
 def score (m : Bin α β) : R Rat := Union.scoreWith A B max m
 
 /-- `DisjunctionMaxMatcher.max_quality` (sub-matchers are asked unconditionally) -/
